@@ -29,6 +29,9 @@ type Mutex struct {
 // and a global acquisition sequence number (the linearisation order).
 var OnAcquire func(tag string)
 
+// OnRelease, if set, is called just before the mutex is released.
+var OnRelease func(tag string)
+
 func sim() (*simcore.Run, string) {
 	r := simcore.Active.Load()
 	if r == nil || !r.YieldsOn {
@@ -75,7 +78,10 @@ func (m *Mutex) Lock() {
 }
 
 func (m *Mutex) Unlock() {
-	r, _ := sim()
+	r, tag := sim()
+	if r != nil && OnRelease != nil {
+		OnRelease(tag)
+	}
 	m.g.Lock()
 	if !m.held {
 		m.g.Unlock()
@@ -89,9 +95,16 @@ func (m *Mutex) Unlock() {
 }
 
 func (m *Mutex) TryLock() bool {
+	r, _ := sim()
+	if r == nil && !m.real.TryLock() {
+		return false
+	}
 	m.g.Lock()
 	defer m.g.Unlock()
 	if m.held {
+		if r == nil {
+			m.real.Unlock()
+		}
 		return false
 	}
 	m.held = true
